@@ -24,12 +24,16 @@ class Index:
                     self._writes.setdefault(n.attr, []).append((f, n, "store"))
                 elif isinstance(n, ast.Subscript) and isinstance(n.ctx, (ast.Store, ast.Del)) and isinstance(n.value, ast.Attribute):
                     self._writes.setdefault(n.value.attr, []).append((f, n, "item"))
+                elif isinstance(n, ast.Subscript) and isinstance(n.ctx, (ast.Store, ast.Del)) and isinstance(n.value, ast.Name):
+                    self._writes.setdefault(n.value.id, []).append((f, n, "item"))
                 elif isinstance(n, ast.Call):
                     fn = n.func
                     if isinstance(fn, ast.Attribute):
                         self._calls.setdefault(fn.attr, []).append((f, n))
                         if fn.attr in MUTATORS and isinstance(fn.value, ast.Attribute):
                             self._writes.setdefault(fn.value.attr, []).append((f, n, "mutate:" + fn.attr))
+                        if fn.attr in MUTATORS and isinstance(fn.value, ast.Name):
+                            self._writes.setdefault(fn.value.id, []).append((f, n, "mutate:" + fn.attr))
                     elif isinstance(fn, ast.Name):
                         self._calls.setdefault(fn.id, []).append((f, n))
         # module-level statements (outside any function)
